@@ -25,18 +25,50 @@ Qed.
 Lemma upd_other : forall h i v j, j <> i -> upd h i v j = h j.
 Proof. intros h i v j H. unfold upd. destruct (Nat.eqb j i) eqn:E; [apply Nat.eqb_eq in E; contradiction | reflexivity]. Qed.
 
+(* a block of effects keeps the invariant as soon as each of them does *)
+Lemma effects_inner_of_forall :
+  forall N es,
+    Forall (fun e => forall s, good N s -> good N (apply_effect e s) /\ frame N s (apply_effect e s)) es ->
+    forall s, good N s -> good N (apply_effects es s) /\ frame N s (apply_effects es s).
+Proof.
+  intros N es H. unfold apply_effects. induction H as [| e r He Hr IH]; intros s G; simpl.
+  - split; [exact G | apply frame_refl].
+  - destruct (He s G) as [G1 F1]. destruct (IH _ G1) as [G2 F2].
+    split; [exact G2 | eapply frame_trans; eauto].
+Qed.
+
+(* a nested `with sys_path(...)` inside the loader's own: it saves the binding it finds (the loader's temporary list, or
+   a list the code bound itself), works on a fresh list, and puts the saved binding back -- a stack, by recursion *)
+Lemma scoped_inner :
+  forall N paths (body : st -> st) s,
+    (forall s0, good N s0 -> good N (body s0) /\ frame N s0 (body s0)) ->
+    good N s -> good N (scoped paths body s) /\ frame N s (scoped paths body s).
+Proof.
+  intros N paths body s Hb G. unfold scoped, with_sys_path.
+  destruct (is_nil paths && sys_path_noop_when_empty); simpl; [apply Hb; exact G |].
+  destruct G as [G1 G2].
+  assert (Gr : good N (rebind paths s)). { unfold good, rebind; simpl. lia. }
+  assert (Fr : frame N s (rebind paths s)).
+  { unfold frame, rebind; simpl. split; [lia |]. intros i Hi. apply upd_other. lia. }
+  destruct (Hb _ Gr) as [[G3 G4] F3].
+  pose proof (frame_trans _ _ _ _ Fr F3) as F.
+  split.
+  - unfold good, set_cur; simpl. destruct F as [Fn _]. unfold rebind in *; simpl in *. lia.
+  - destruct F as [Fn Fh]. unfold frame, set_cur; simpl. split; assumption.
+Qed.
+
 Lemma apply_effect_inner : forall N e s, good N s -> good N (apply_effect e s) /\ frame N s (apply_effect e s).
 Proof.
-  intros N e s [H1 H2]. destruct e; simpl; unfold mutate, rebind, good, frame; simpl;
+  intros N e. induction e as [p | p | | l | paths inner IH] using effect_ind2; intros s G.
+  1-4: destruct G as [H1 H2]; simpl; unfold mutate, rebind, good, frame; simpl;
     (split; [split; lia | split; [lia | intros i Hi; apply upd_other; lia]]).
+  rewrite apply_scope_eq. apply scoped_inner; [| exact G].
+  apply effects_inner_of_forall. exact IH.
 Qed.
 
 Lemma apply_effects_inner : forall N es s, good N s -> good N (apply_effects es s) /\ frame N s (apply_effects es s).
 Proof.
-  intros N es. unfold apply_effects. induction es as [| e r IH]; intros s G; simpl.
-  - split; [exact G | apply frame_refl].
-  - destruct (apply_effect_inner N e s G) as [G1 F1]. destruct (IH _ G1) as [G2 F2].
-    split; [exact G2 | eapply frame_trans; eauto].
+  intros N es. apply effects_inner_of_forall. rewrite Forall_forall. intros e _. apply apply_effect_inner.
 Qed.
 
 Lemma import_prefixes_inner :
@@ -293,6 +325,31 @@ Proof.
   destruct S as (C & _ & Hh). split; [exact C | apply Hh; exact Hwf].
 Qed.
 
+(* any history of calls on one loader *)
+Lemma run_history_stable :
+  forall w allow force store search catch steps s,
+    search <> [] -> wf s -> stable s (snd (run_history w allow force store search catch steps s)).
+Proof.
+  intros w a fo store search catch steps. induction steps as [| h t IH]; intros s Hs Hwf; simpl; [apply stable_refl |].
+  pose proof (session_stable w a fo store (hs_submodules h) search (hs_root h) (hs_later h) s Hs Hwf) as S1.
+  destruct (session w a fo store (hs_submodules h) search (hs_root h) (hs_later h) s) as [res s1]. simpl in S1.
+  pose proof (stable_wf _ _ Hwf S1) as Hwf1.
+  destruct res as [x |].
+  - destruct (caught_by catch x); [eapply stable_trans; [exact S1 | apply IH; assumption] | exact S1].
+  - eapply stable_trans; [exact S1 | apply IH; assumption].
+Qed.
+
+Theorem history_sys_path_restored :
+  forall w allow force store search catch steps s r s',
+    wf s -> search <> [] ->
+    run_history w allow force store search catch steps s = (r, s') ->
+    cur s' = cur s /\ heap s' (cur s) = heap s (cur s).
+Proof.
+  intros w a fo store search catch steps s r s' Hwf Hs H.
+  pose proof (run_history_stable w a fo store search catch steps s Hs Hwf) as S. rewrite H in S. simpl in S.
+  destruct S as (C & _ & Hh). split; [exact C | apply Hh; exact Hwf].
+Qed.
+
 (* a package found on disk needs no assumption on the search paths: the import path always holds its parent directory *)
 Theorem sys_path_restored_found_package :
   forall w allow force store submodules search top subs stubs s r s',
@@ -377,6 +434,35 @@ Example restore_exercised :
                     (["p"; "a"], mkBeh None true [ERebind [["y"]]; EApp ["z"]] (Some XSystemExit))] [] [] in
   let '(r, s') := session w true true true true [["sp"]] (Some (RNode "p" [])) [] (init_state [["orig"]]) in
   r = None /\ cur s' = 0 /\ heap s' 0 = [["orig"]] /\ List.length (executions s') = 2 /\ next s' = 4.
+Proof. vm_compute. repeat split. Qed.
+
+(* non-vacuity of the nesting: the inspected package calls back into Griffe at import time -- a nested
+   `with sys_path("n1")` that inserts into its own temporary list and itself holds another nested scope -- then inserts
+   into the loader's temporary list; every level puts back what it found, sys.path ends up as it was *)
+Example nested_scopes_restore :
+  let top := mkMod ["p"] ["sp"; "p"] "__init__" ".py" None in
+  let body := [EScope [["n1"]] [EIns0 ["x"]; EScope [["n2"]] [EClear]; EApp ["y"]]; EIns0 ["z"]] in
+  let w := mkWorld [("p", FPkg top [] None)] [(["p"], mkBeh (Some ["sp"]) true body None)] [] [] in
+  let '(r, s') := session w true true true true [["sp"]] (Some (RNode "p" [])) [] (init_state [["orig"]]) in
+  r = None /\ cur s' = 0 /\ heap s' 0 = [["orig"]] /\ heap s' 1 = [["z"]; ["sp"]] /\ heap s' 2 = [["x"]; ["n1"]; ["y"]] /\ heap s' 3 = [] /\ next s' = 4.
+Proof. vm_compute. repeat split. Qed.
+
+(* why the saved binding has to live in the frame of each `with` (a stack): with ONE shared slot for it, a nested scope
+   overwrites what the outer one saved, and the outer exit "restores" its own temporary list *)
+Definition scoped_one_slot (paths : list path) (body : st * nat -> st * nat) (x : st * nat) : st * nat :=
+  let (s, _) := x in
+  let (s2, slot2) := body (rebind paths s, cur s) in      (* slot := sys.path; sys.path := fresh list; body; sys.path := slot *)
+  (set_cur slot2 s2, slot2).
+
+Example one_slot_does_not_nest :
+  let s0 := init_state [["orig"]] in
+  (* properly nested, frame-local saves: back to the original binding *)
+  cur (scoped [["outer"]] (scoped [["inner"]] (fun s => s)) s0) = cur s0 /\
+  (* one shared slot: sys.path ends up bound to the outer temporary list *)
+  cur (fst (scoped_one_slot [["outer"]] (scoped_one_slot [["inner"]] (fun x => x)) (s0, 0))) = 1 /\
+  heap (fst (scoped_one_slot [["outer"]] (scoped_one_slot [["inner"]] (fun x => x)) (s0, 0))) 1 = [["outer"]] /\
+  (* without nesting the shared slot does no harm: sequential scopes restore *)
+  cur (fst (scoped_one_slot [["b"]] (fun x => x) (scoped_one_slot [["a"]] (fun x => x) (s0, 0)))) = cur s0.
 Proof. vm_compute. repeat split. Qed.
 
 (* non-vacuity of the entry-point theorem: `search_paths=None` in an interpreter whose sys.path holds the package;
